@@ -248,6 +248,11 @@ type GossipSubParams struct {
 }
 
 func (params *GossipSubParams) validate() error {
+	// the message cache needs at least one window: with none the first publish
+	// or heartbeat indexes an empty history
+	if params.HistoryLength < 1 || params.HistoryGossip < 0 {
+		return fmt.Errorf("param HistoryLength=%d must be at least 1 and HistoryGossip=%d must not be negative", params.HistoryLength, params.HistoryGossip)
+	}
 	if !(params.HistoryGossip <= params.HistoryLength) {
 		return fmt.Errorf("param HistoryGossip=%d must be less than or equal to HistoryLength=%d", params.HistoryGossip, params.HistoryLength)
 	}
